@@ -731,6 +731,45 @@ pub fn stiff(args: &[String]) {
             r14(300000 + k, "relaxation-off-manifold", method, key, &why, &format!("\"user_jac\":{},\"rtol\":{},\"first_step\":{},\"steps\":{:?},", user_jac, jnum(*rtol), jnum(*first), steps));
         } }
     }
+    pr_cubic();
+}
+
+/// Prothero–Robinson with a cubic restoring term: y' = -lam (y - cos t) - sin t - c (y - cos t)^3, y(0) = 1 (solution cos t)
+struct PRCubic { lam: f64, c: f64, user_jac: bool }
+impl IVP for PRCubic {
+    fn ode(&self, t: f64, y: &[f64], d: &mut [f64]) { let e = y[0] - t.cos(); d[0] = -self.lam * e - t.sin() - self.c * e * e * e; }
+    fn jac(&self, t: f64, y: &[f64], j: &mut Matrix) {
+        if self.user_jac { let e = y[0] - t.cos(); j[(0, 0)] = -self.lam - 3.0 * self.c * e * e; }
+        else { let mut f0 = vec![0.0]; self.ode(t, y, &mut f0); let d = (f64::EPSILON).sqrt() * y[0].abs().max(1.0); let mut f1 = vec![0.0]; self.ode(t, &[y[0] + d], &mut f1); j[(0, 0)] = (f1[0] - f0[0]) / d; }
+    }
+}
+
+/// C14 on a stiff problem with a mild nonlinearity: the final steps grow by the maximal factor with a reused Jacobian and a
+/// convergence-rate estimate carried over from the previous step
+pub fn pr_cubic() {
+    let mut k = 0;
+    for method in [Method::RADAU, Method::BDF] {
+        for (lam, rtol) in [(1e6, 1e-4), (1e8, 1e-6), (1e4, 1e-4), (1e8, 1e-4), (1e6, 1e-6), (1e10, 1e-8)] {
+            for user_jac in [true, false] {
+                let p = PRCubic { lam, c: 1e6, user_jac };
+                let o = Options::builder().method(method).rtol(rtol).atol(rtol * 1e-3).build();
+                let (mut why, mut key, mut extra) = (String::new(), "", String::new());
+                match catch_unwind(AssertUnwindSafe(|| solve_ivp(&p, 0.0, 2.0, &[1.0], o))) {
+                    Ok(Ok(s)) => {
+                        let mut worst: f64 = 0.0;
+                        for (t, y) in s.t.iter().zip(s.y.iter()) { worst = worst.max((y[0] - t.cos()).abs()); }
+                        extra = format!("\"status\":\"{:?}\",\"naccpt\":{},\"worst\":{:e},", s.status, s.naccpt, worst);
+                        if s.status != Status::Success { why = format!("status {:?}", s.status); key = "c14-status"; }
+                        else if worst > 10.0 * (s.naccpt.max(1) as f64) * rtol { why = format!("lambda = {:e}, rtol = {:e}: error {:.3e} after {} accepted steps (the last step of length {:.3} is accepted after one Newton iteration)", lam, rtol, worst, s.naccpt, s.t[s.t.len() - 1] - s.t[s.t.len() - 2]); key = if method == Method::RADAU { "c14-radau-first-iterate-accepted" } else { "c14-accuracy" }; }
+                    }
+                    _ => { why = "run fails".into(); key = "c14-status"; }
+                }
+                println!("{{\"kind\":\"st\",\"case\":{},\"branch\":\"pr-cubic\",\"method\":\"{}\",\"finding_key\":\"{}\",\"lam\":{:e},\"rtol\":{:e},\"user_jac\":{},{}\"ok\":{},\"why\":{:?}}}",
+                    400000 + k, method_name(method), if why.is_empty() { "" } else { key }, lam, rtol, user_jac, extra, why.is_empty(), why);
+                k += 1;
+            }
+        }
+    }
 }
 
 /// y0' = -lam (y0^3 - phi^3) + phi',  y1' = -(y1 - y0),  phi = 2 + sin t: relaxation with rate ~ 3 lam phi^2 onto y0 = phi
